@@ -112,6 +112,19 @@ def _canon_job(name):
     return (kind, chem.canon(smi) if kind == "ok" and smi else smi)
 
 
+def _recipe_tokens(name):
+    """the residue's recipe tokens as the real front-end reads the name (sorted): two spellings are the same set of
+    modifications on the same sugar only if these agree (e.g. '4P' + 'LDManHep' re-lexes as the bridge token '4PLD')"""
+    try:
+        from glyles import Glycan
+        t = Glycan(name, tree_only=True).get_tree()
+        if t is None or len(t.nodes) != 1:
+            return None
+        return sorted(x[0] for x in t.nodes[0]["type"].recipe)
+    except Exception:
+        return None
+
+
 def _multi_spec(job):
     """Spec of several modifications on one residue: the single-modification Spec edits applied one after the other"""
     sugar, mods = job
@@ -225,6 +238,17 @@ def run(rep, tier, driver):
             for v in variants:
                 names.append(v)
                 groups.append(gi)
+    # a spelling takes part only if the front-end reads it as the same tokens as the first spelling of its group
+    toks = pmap(_recipe_tokens, names, chunk=8)
+    ref_toks = {}
+    keep = []
+    for gi, nm, tk in zip(groups, names, toks):
+        ref_toks.setdefault(gi, tk)
+        if tk is None or tk != ref_toks[gi]:
+            rep.count("composition-spelling-relexes-differently")
+            continue
+        keep.append((gi, nm))
+    groups, names = [g for g, _ in keep], [n for _, n in keep]
     res = pmap(_canon_job, names, chunk=8)
     spec_keys = sorted(specs)
     spec_vals = dict(zip(spec_keys, pmap(_multi_spec, [specs[k] for k in spec_keys], chunk=4)))
